@@ -34,8 +34,7 @@ import (
 )
 
 type Consts struct {
-	Method    []string `json:"Method"`
-	SwitchVal []string `json:"SwitchVal"`
+	Method []string `json:"Method"`
 }
 
 var Acc = []string{"A", "B", "user", "victim"}
@@ -217,23 +216,31 @@ func kindOf(k string) byte {
 	panic("kind " + k)
 }
 
-func (a *Adapter) switchList(x string) []string {
+// switchEntry: the SwitchParams.DisablePrecompiles entry of a model entry ("staking" / "crosschain" = the
+// whole precompile address, otherwise a method: address/method id).
+func switchEntry(x string) string {
 	switch x {
-	case "off":
-		return nil
 	case "staking":
-		return []string{strings.ToLower(pcenv.StakingAddr.Hex())}
+		return strings.ToLower(pcenv.StakingAddr.Hex())
 	case "crosschain":
-		return []string{strings.ToLower(pcenv.CrosschainAddr.Hex())}
+		return strings.ToLower(pcenv.CrosschainAddr.Hex())
 	}
-	return []string{strings.ToLower(pcenv.PrecompileOf(x).Hex()) + "/" + hex.EncodeToString(pcenv.MethodID(x))}
+	return strings.ToLower(pcenv.PrecompileOf(x).Hex()) + "/" + hex.EncodeToString(pcenv.MethodID(x))
 }
+
+var switchNames = append([]string{"staking", "crosschain", "delegation"}, append(append([]string{}, pcenv.StakingMethods...), pcenv.CrosschainMethods...)...)
 
 func (a *Adapter) Apply(ctx sdk.Context, op graph.Op) (sdk.Context, string) {
 	w := a.W
 	switch op.Name() {
 	case "SetSwitch":
-		p := fxgovtypes.SwitchParams{DisablePrecompiles: a.switchList(op.Str("x"))}
+		var list []string
+		xs, _ := op["x"].([]any)
+		for _, x := range xs {
+			name, _ := x.(string)
+			list = append(list, switchEntry(name))
+		}
+		p := fxgovtypes.SwitchParams{DisablePrecompiles: list}
 		if bz := ctx.KVStore(a.gkey).Get(fxgovtypes.FxSwitchParamsKey); bz != nil {
 			var cur fxgovtypes.SwitchParams
 			w.App.AppCodec().MustUnmarshal(bz, &cur)
@@ -423,17 +430,18 @@ func (a *Adapter) Project(ctx sdk.Context) any {
 		}
 	}
 	it.Close()
-	sw := "off"
+	sw := []string{} // the list as stored (gov store key 0x92), entry by entry, in order
 	if bz := ctx.KVStore(a.gkey).Get(fxgovtypes.FxSwitchParamsKey); bz != nil {
 		var p fxgovtypes.SwitchParams
 		cdc.MustUnmarshal(bz, &p)
-		if len(p.DisablePrecompiles) > 0 {
-			sw = "?" + strings.Join(p.DisablePrecompiles, ",")
-			for _, x := range append([]string{"staking", "crosschain"}, append(append([]string{}, pcenv.StakingMethods...), append(pcenv.CrosschainMethods, "delegation")...)...) {
-				if l := a.switchList(x); len(p.DisablePrecompiles) == 1 && l[0] == p.DisablePrecompiles[0] {
-					sw = x
+		for _, entry := range p.DisablePrecompiles {
+			name := "?" + entry
+			for _, x := range switchNames {
+				if switchEntry(x) == strings.ToLower(entry) {
+					name = x
 				}
 			}
+			sw = append(sw, name)
 		}
 	}
 	return map[string]any{"fx": fx, "frac": frac, "tok": tok, "coin": coin, "sh": sh, "sh1": sh1, "rew": rew, "allow": allow,
